@@ -1346,6 +1346,10 @@ where
                     // read from I/O stream and fill read buffer
                     let should_disconnect = inner.as_mut().read_available(cx)?;
 
+                    // reading stops without leaving a waker with the I/O stream when the read
+                    // buffer is full
+                    let read_suspended = inner.read_buf.len() >= MAX_BUFFER_SIZE;
+
                     // after reading something from stream, clear keep-alive timer
                     if !inner.read_buf.is_empty() && inner.flags.contains(Flags::KEEP_ALIVE) {
                         let inner = inner.as_mut().project();
@@ -1485,6 +1489,14 @@ where
                     );
 
                     if inner_p.flags.intersects(Flags::LINGER | Flags::SHUTDOWN) {
+                        cx.waker().wake_by_ref();
+                    } else if read_suspended
+                        && inner_p.read_buf.len() < MAX_BUFFER_SIZE
+                        && !inner_p.flags.contains(Flags::READ_DISCONNECT)
+                    {
+                        // The read buffer was worked off during this poll (payload consumed or
+                        // being drained, requests decoded), but the I/O stream was not polled to
+                        // `Pending` and holds no waker: nothing else would resume reading.
                         cx.waker().wake_by_ref();
                     }
                     Poll::Pending
